@@ -282,6 +282,14 @@ func reportRaces(c *vf.Ctx, rs []vf.RaceReport, j job) {
 	}
 }
 
+// scenarioOfMark: the "disc" scenario names the user-code site it was driving ("disc:<site> <run>") when the child died.
+func scenarioOfMark(mark, scenario string) string {
+	if f := strings.Fields(mark); len(f) == 2 && strings.HasPrefix(f[0], scenario+":") {
+		return f[0]
+	}
+	return scenario
+}
+
 func markRun(m string) int {
 	f := strings.Fields(m)
 	if len(f) == 2 {
@@ -312,11 +320,12 @@ func runJob(c *vf.Ctx, j job, timeout time.Duration) {
 		}
 		idx := markRun(res.LastMark)
 		ref := caseRef{Scenario: j.Scenario, Run: idx, Race: j.Race, Dump: trimDump(res.Stderr)}
+		scn := scenarioOfMark(res.LastMark, j.Scenario)
 		switch {
 		case deadAt || res.ExitCode == 7:
 			// -race child: its snapshot monitor already reported the dead-lock
 		case res.Deadlock:
-			fp, what := classifyDeadlock(j.Scenario, gdump.Parse(res.Stderr))
+			fp, what := classifyDeadlock(scn, gdump.Parse(res.Stderr))
 			c.Count("deadlocks", 1)
 			c.Violation(fp, what+" (Go runtime: all goroutines are asleep)", ref)
 		case res.TimedOut:
@@ -328,7 +337,7 @@ func runJob(c *vf.Ctx, j job, timeout time.Duration) {
 				}
 			}
 			if allParked {
-				fp, what := classifyDeadlock(j.Scenario, gs)
+				fp, what := classifyDeadlock(scn, gs)
 				c.Count("deadlocks", 1)
 				c.Violation(fp, what+" (watchdog dump: every goroutine parked)", ref)
 			} else {
